@@ -179,9 +179,10 @@ PROPS = {
         "assumptions": STD_ASSUME + [
             "the three std-collection statements of compact() (HashSet collect, into_iter().collect(), sort_unstable) are replaced "
             "by stubs with assumed contracts (rule R5): set equality, no duplicates, sorted permutation, Vec<u64> length <= isize::MAX/8",
-            "order / multiplicity independence: proved that the working list after the sort is the unique strictly sorted enumeration "
-            "of the input SET; that the rest of compact() is a deterministic function of that list (it never reads `cells` again) is "
-            "by determinism of safe Rust, not a proof obligation",
+            "order / multiplicity independence is an obligation (no assumption on the compaction loops): the working list after the "
+            "sort is the unique scan-ordered enumeration s of the input SET, the scan loop computes the spec function pass_from, the "
+            "outer loop iter_pass(s, n), and thm_compact_order_independent derives equal result lists for inputs with equal canonical "
+            "sets; what remains assumed is only the std HashSet / sort stubs above",
             "no-duplicates is proved for EVERY list of valid cells (invariant: the working list stays strictly ordered by the scan key; "
             "a parent's key lies strictly between its first and last child's) - after the fix: commit c5e0418, which repaired the "
             "former findings F1/F2 (base cells / world cell sorted away from their children)",
@@ -191,7 +192,8 @@ PROPS = {
                       "covered-set: Err iff some input is not a cell; for every list of cells (non-canonical aliases included) the result is Ok, consists of canonical IDs no finer than the inputs, and "
                       "covers exactly the same cells at every resolution at least as fine as all inputs (each merge is shown to replace "
                       "exactly the complete set of children of the parent it inserts); the result has no duplicates and is in scan "
-                      "order; the working list after dedup+sort is the unique scan-ordered enumeration of the input set.",
+                      "order; the working list after dedup+sort is the unique scan-ordered enumeration of the input set, and the result is "
+                      "a function of that enumeration alone (spec iter_pass), hence independent of input order and multiplicity.",
         "level_note": "std HashSet/sort under assumed contracts; callee contracts (get_resolution, is_first_child, get_stride, "
                       "cell_to_parent, scan_key) verified in the same unit.",
         "technique": "Verus contract + loop invariants (abstract covered set, antichain) on the extracted real compact()",
